@@ -633,6 +633,7 @@ DEPS = {
     'C04': ['C08', 'C09', 'C11', 'C16', 'C14', 'C10'],
     'C05': ['C08', 'C09', 'C11', 'C16', 'C14', 'C10'],
     'C06': ['C11', 'C16'],
+    'C08': ['C09'],
     'C07': ['C11', 'C16', 'C09'],
     'C10': ['C12', 'C13'],
     'C11': ['C10', 'C13'],
@@ -640,7 +641,7 @@ DEPS = {
     'C16': ['C14', 'C10'],
     'C17': ['C06', 'C07', 'C09', 'C14', 'C10'],
     'C18': ['C08', 'C10', 'C11', 'C12', 'C13', 'C14', 'C16'],
-    'C19': ['C11', 'C16'],
+    'C19': ['C08', 'C11', 'C16'],
 }
 
 
